@@ -27,6 +27,7 @@ struct Config {
   long max_steps = 4000000;  // per region; exceeding it = "steplimit"
   const unsigned char* prefix = nullptr; // explicit schedule prefix (thread ids), then the strategy continues
   long prefix_len = 0;
+  int post_write = 1;        // also a scheduling point after every store / RMW (see wrote())
   int threads = 0;           // participants of the next regions (0: read galois::runtime::activeThreads)
 };
 void configure(const Config&);
